@@ -41,14 +41,12 @@ Section Bridge.
     apply block_eqb_eq in W. congruence.
   Qed.
 
-  Lemma bridge_id b : In b h -> bid b <> 0 /\ bparent b <> 0 /\ bid b <> bparent b.
+  Lemma bridge_id b : In b h -> bid b <> 0 /\ bid b <> bparent b.
   Proof.
     intros Hb. pose proof (wf_block_of b Hb) as W. unfold wf_block in W.
     apply andb_true_iff in W as [W _]. apply andb_true_iff in W as [W _]. apply andb_true_iff in W as [W1 W2].
     apply negb_true_iff, N.eqb_neq in W1. apply negb_true_iff, N.eqb_neq in W2.
-    destruct scope_parts as (_ & _ & F). specialize (F b Hb). unfold fixed_block_b in F.
-    apply andb_true_iff in F as [F _]. apply andb_true_iff in F as [F _]. apply andb_true_iff in F as [F _].
-    apply negb_true_iff, N.eqb_neq in F. auto.
+    auto.
   Qed.
 
   Lemma bridge_uniq x y : In x h -> In y h -> bid x = bid y -> x = y.
